@@ -599,6 +599,76 @@ Proof.
     now rewrite !Hgo.
 Qed.
 
+(* ---- tmatch_lit (matchLiteral) enumerates the candidates with a literal first level ---- *)
+Definition lit_cands (ts : list level) : list (list level) :=
+  match ts with
+  | [] => []
+  | t :: rest =>
+      match rest with
+      | [] => [[t]; [t; [HASH]]]
+      | _ => map (cons t) (cands rest)
+      end
+  end.
+
+Lemma tmatch_lit_cands ts n :
+  tmatch_lit ts n = flat_map (fun f => set_rs (nd f n)) (lit_cands ts).
+Proof.
+  destruct ts as [|t rest]; [reflexivity|]. destruct rest as [|t2 rest2].
+  - cbn [tmatch_lit lit_cands flat_map nd]. rewrite app_nil_r.
+    unfold sub_child. destruct (child t n) as [c|]; [|reflexivity].
+    destruct (child [HASH] c); reflexivity.
+  - cbn [tmatch_lit lit_cands]. rewrite flat_map_map_cons.
+    unfold sub_child. destruct (child t n) as [c|]; [apply tmatch_cands|].
+    now rewrite flat_map_nd_empty.
+Qed.
+
+Lemma lit_cands_in t rest f :
+  t <> [PLUS] -> t <> [HASH] ->
+  (In f (lit_cands (t :: rest)) <-> In f (cands (t :: rest)) /\ exists fr, f = t :: fr).
+Proof.
+  intros Hp Hh. destruct rest as [|t2 rest2].
+  - rewrite cands_one. cbn [lit_cands In]. split.
+    + intros [<-|[<-|[]]]; (split; [tauto|eexists; reflexivity]).
+    + intros [[<-|[<-|[<-|[<-|[<-|[]]]]]] [fr E]]; try (injection E as E _; congruence); tauto.
+  - rewrite cands_cons_cons. cbn [lit_cands]. split.
+    + intros Hin. split; [right; apply in_or_app; now right|].
+      apply in_map_iff in Hin as (fr & <- & _). now exists fr.
+    + intros [[<-|Hin] [fr E]]; [injection E as E _; congruence|].
+      apply in_app_or in Hin as [Hin|Hin]; [|exact Hin].
+      apply in_map_iff in Hin as (x & <- & _). injection E as E _. congruence.
+Qed.
+
+Lemma lit_cands_nodup ts : no_wild_levels ts = true -> NoDup (lit_cands ts).
+Proof.
+  destruct ts as [|t rest]; intros Hnw; [constructor|].
+  apply no_wild_cons in Hnw as (_ & _ & Hrest).
+  destruct rest as [|t2 rest2].
+  - cbn [lit_cands]. constructor; [|constructor; [intros []|constructor]].
+    intros [E|[]]. discriminate.
+  - cbn [lit_cands]. apply NoDup_map_cons. now apply cands_nodup.
+Qed.
+
+(* MQTT-4.7.2-1 in terms of levels: a filter matches a topic name beginning with '$' iff the
+   levels match and the first filter level is the (literal) first level of the name *)
+Lemma topic_match_dollar_lit t f t0 rest :
+  starts_dollar t = true -> split t = t0 :: rest ->
+  (topic_match t f = true <-> lm (t0 :: rest) (split f) = true /\ exists fr, split f = t0 :: fr).
+Proof.
+  intros Hd Et. destruct (split_first_level_dollar t Hd) as (l & ls & Et').
+  rewrite Et in Et'. injection Et' as -> ->.
+  unfold topic_match. rewrite Hd, Et. cbn [andb]. split.
+  - intros H. apply andb_true_iff in H as [Hw Hlm]. apply negb_true_iff in Hw.
+    split; [exact Hlm|].
+    destruct (split f) as [|fl f'] eqn:Ef; [now apply split_nonempty in Ef|].
+    destruct (is_hash fl) eqn:Eh.
+    { apply is_hash_eq in Eh. subst fl. apply split_head in Ef as (f0 & ->). discriminate. }
+    rewrite (lm_cons_nohash _ _ _ _ Eh) in Hlm. apply andb_true_iff in Hlm as [Hfl _].
+    apply orb_true_iff in Hfl as [Hfl|Hfl].
+    { apply is_plus_eq in Hfl. subst fl. apply split_head in Ef as (f0 & ->). discriminate. }
+    apply str_eqb_eq in Hfl. subst fl. now exists f'.
+  - intros [Hlm [fr Ef]]. apply split_head in Ef as (f0 & ->). exact Hlm.
+Qed.
+
 (* ================================================================== *)
 (* 4. what is stored at one node                                       *)
 (* ================================================================== *)
@@ -1674,6 +1744,50 @@ Section Entries.
         * apply (obs_in_set_rs (s_share s)).
           apply (entry_complete _ c (s_share s) (s_filter s) s (HN _) Hk Hget).
   Qed.
+
+  Lemma tmatch_lit_exact T t0 rest :
+    TInv k get T -> no_wild_levels (t0 :: rest) = true ->
+    NoDup (tmatch_lit (t0 :: rest) T) /\
+    forall c s, In (c, s) (tmatch_lit (t0 :: rest) T) <->
+      (kind_of (s_share s) (s_filter s) = k /\ sp_get (c, s_share s, s_filter s) sp = Some s /\
+       lm (t0 :: rest) (split (s_filter s)) = true /\ exists fr, split (s_filter s) = t0 :: fr).
+  Proof.
+    intros [Hwf HN] Hnw. rewrite tmatch_lit_cands.
+    assert (Hne : t0 :: rest <> []) by discriminate.
+    pose proof Hnw as Hnw'. apply no_wild_cons in Hnw' as (Hp & Hh & _).
+    split.
+    - apply NoDup_flat_map.
+      + now apply lit_cands_nodup.
+      + intros p _. apply (set_rs_nodup p). apply HN.
+      + intros p1 p2 [c s] _ _ H1 H2.
+        destruct (entry_sound p1 _ c s (HN p1) H1) as (E1 & _).
+        destruct (entry_sound p2 _ c s (HN p2) H2) as (E2 & _). congruence.
+    - intros c s. rewrite in_flat_map. split.
+      + intros (p & Hp' & Hin). destruct (entry_sound p _ c s (HN p) Hin) as (E1 & Hk & Hget).
+        split; [exact Hk|]. split; [exact Hget|]. subst p.
+        apply (lit_cands_in t0 rest _ Hp Hh) in Hp' as [Hc Hfr].
+        split; [now apply (cands_lm_nowild (t0 :: rest) _ Hne Hnw)|exact Hfr].
+      + intros (Hk & Hget & Hlm & Hfr). exists (split (s_filter s)). split.
+        * apply (lit_cands_in t0 rest _ Hp Hh). split; [now apply cands_complete|exact Hfr].
+        * apply (obs_in_set_rs (s_share s)).
+          apply (entry_complete _ c (s_share s) (s_filter s) s (HN _) Hk Hget).
+  Qed.
+
+  (* getMatchedTopicFilter on any of the three tries: full MQTT 4.7 matching, '$' rule included *)
+  Lemma tmatch_top_exact T t :
+    TInv k get T -> no_wild_levels (split t) = true ->
+    NoDup (tmatch_top t T) /\
+    forall c s, In (c, s) (tmatch_top t T) <->
+      (kind_of (s_share s) (s_filter s) = k /\ sp_get (c, s_share s, s_filter s) sp = Some s /\
+       topic_match t (s_filter s) = true).
+  Proof.
+    intros HT Hnw. unfold tmatch_top. destruct (starts_dollar t) eqn:Hd.
+    - destruct (split t) as [|t0 rest] eqn:Et; [now apply split_nonempty in Et|].
+      destruct (tmatch_lit_exact T t0 rest HT Hnw) as [Hnd Hin]. split; [exact Hnd|].
+      intros c s. rewrite Hin, (topic_match_dollar_lit t (s_filter s) t0 rest Hd Et). tauto.
+    - destruct (tmatch_exact T (split t) HT (split_nonempty t) Hnw) as [Hnd Hin]. split; [exact Hnd|].
+      intros c s. rewrite Hin. unfold topic_match. rewrite Hd. cbn [andb negb]. tauto.
+  Qed.
 End Entries.
 
 (* the optional client restriction of a query *)
@@ -1746,23 +1860,21 @@ Proof.
   set (d := db_run ops) in *. set (sp := spec_run ops) in *.
   pose proof (inv_ok _ _ HI) as Hok.
   set (k := plain_kind t).
-  destruct (tmatch_exact k sp Hok (trie_of k d) (split t) (inv_trie _ _ HI k) (split_nonempty t) Hnw)
-    as [Hnd Hin].
-  exists (cfilter c (tmatch (split t) (trie_of k d))). split; [|split].
+  destruct (tmatch_top_exact k sp Hok (trie_of k d) t (inv_trie _ _ HI k) Hnw) as [Hnd Hin].
+  exists (cfilter c (tmatch_top t (trie_of k d))). split; [|split].
   - rewrite db_iterate_plain_topic by (try reflexivity; exact Ht).
     cbn [q_topic io_topic]. fold k. unfold iterate_nonshared, cfilter. cbn [q_topic io_topic io_mt io_client].
     apply is_empty_false in Ht. rewrite Ht. cbn [negb].
     destruct (negb (is_empty c)); reflexivity.
   - now apply NoDup_cfilter.
   - intros c' s. rewrite in_cfilter, Hin. split.
-    + intros [(Hk & Hget & Hlm) Hw]. apply kind_of_plain_kind in Hk as [Hg Hd].
-      rewrite Hg in Hget. split; [exact Hget|]. split; [|exact Hw].
-      rewrite topic_match_same_kind; [exact Hlm|now symmetry].
+    + intros [(Hk & Hget & Htm) Hw]. apply kind_of_plain_kind in Hk as [Hg Hd].
+      rewrite Hg in Hget. tauto.
     + intros (Hget & Htm & Hw). split; [|exact Hw].
       destruct (sp_get_good _ _ _ _ _ Hok Hget) as [Hg _].
-      apply topic_match_kind in Htm as [Hd Hlm].
+      pose proof (topic_match_kind _ _ Htm) as [Hd _].
       split; [apply kind_of_plain_kind; split; [exact Hg|now symmetry]|].
-      split; [now rewrite Hg|exact Hlm].
+      split; [now rewrite Hg|exact Htm].
 Qed.
 
 (* ---- lookups by filter name ---- *)
@@ -1943,14 +2055,14 @@ Lemma sh_lookup_topic_exact ops t c :
   exists l, db_iterate (q_sh_topic t c) (db_run ops) = IOk (some_ents l) /\ NoDup l /\
     forall c' s, In (c', s) l <->
       (s_share s <> [] /\ sp_get (c', s_share s, s_filter s) (spec_run ops) = Some s /\
-       lm (split t) (split (s_filter s)) = true /\ want_client c c').
+       topic_match t (s_filter s) = true /\ want_client c c').
 Proof.
   intros Hwf Ht Hnw. pose proof (Inv_run ops Hwf) as HI.
   set (d := db_run ops) in *. set (sp := spec_run ops) in *.
   pose proof (inv_ok _ _ HI) as Hok.
-  destruct (tmatch_exact KShared sp Hok (trie_of KShared d) (split t) (inv_trie _ _ HI KShared)
-              (split_nonempty t) Hnw) as [Hnd Hin].
-  exists (cfilter c (tmatch (split t) (trie_of KShared d))). split; [|split].
+  destruct (tmatch_top_exact KShared sp Hok (trie_of KShared d) t (inv_trie _ _ HI KShared) Hnw)
+    as [Hnd Hin].
+  exists (cfilter c (tmatch_top t (trie_of KShared d))). split; [|split].
   - rewrite db_iterate_shared_only by reflexivity.
     unfold iterate_shared, cfilter. cbn [q_sh_topic io_topic io_mt io_client].
     apply is_empty_false in Ht. rewrite Ht. cbn [negb].
